@@ -5,7 +5,7 @@ from common import *  # noqa
 import framework as fw
 import frames
 
-MODULE = ["LWV.Props.C03", "LWV.Props.C03Full"]
+MODULE = ["LWV.Props.C03", "LWV.Props.C03Full", "LWV.Props.C07Any"]
 
 KINDS = ["beacon", "probe_req", "probe_resp", "assoc_req", "assoc_resp", "reassoc_req", "reassoc_resp", "auth", "deauth", "disassoc",
          "action", "action_noack", "timing_ad", "atim", "rts", "cts"]
